@@ -30,8 +30,16 @@ class Live:
     """the real-code harness driven interactively (one op in, one reply line out)"""
 
     def __init__(self, exe):
-        self.p = subprocess.Popen([exe], stdin=subprocess.PIPE, stdout=subprocess.PIPE, stderr=subprocess.PIPE,
-                                  text=True, bufsize=1, env=vlib.ENV)
+        for attempt in range(30):
+            try:
+                self.p = subprocess.Popen([exe], stdin=subprocess.PIPE, stdout=subprocess.PIPE, stderr=subprocess.PIPE,
+                                          text=True, bufsize=1, env=vlib.ENV)
+                break
+            except (PermissionError, OSError):
+                # the harness binary is being relinked by a concurrent check run
+                if attempt == 29:
+                    raise
+                time.sleep(1)
         self.dead = False
         self.stderr = ""
 
@@ -790,6 +798,17 @@ def crashed(S):
 
 
 # --------------------------------------------------------------------------- running many sessions
+def retrying(f, tries=30):
+    """run f(), retrying while the harness binary is being relinked by a concurrent check run"""
+    for attempt in range(tries):
+        try:
+            return f()
+        except (PermissionError, OSError):
+            if attempt == tries - 1:
+                raise
+            time.sleep(1)
+
+
 def gen_parallel(exe, seeds, fn, workers=None):
     """run fn(live, rng) -> Sess for each seed, each on its own harness process"""
     import random
@@ -860,7 +879,7 @@ class Replayed:
 def run_corpus(exe, corpus):
     out = []
     for name, ops in corpus:
-        io, rc, err = vlib.run_lines(exe, ["reset"] + ops)
+        io, rc, err = retrying(lambda: vlib.run_lines(exe, ["reset"] + ops))
         outs = io[1:] + [None] * (len(ops) - len(io) + 1)
         out.append((name, Replayed(ops, outs[:len(ops)], dead=len(io) < len(ops) + 1, stderr=err)))
     return out
@@ -940,7 +959,7 @@ def run(tier, seed):
                 chk.cov["known_finding_hits"] = known_seen
             sessions = [S.ops for S in allS if not S.live.dead]
             if st["proof"] or os.path.exists(vlib.model_exe()):
-                diverged, total = vlib.diff_sessions(exe, sessions)
+                diverged, total = retrying(lambda: vlib.diff_sessions(exe, sessions))
             nhost = sum(1 for S in allS for e in S.events if e[1] == "hostile")
             chk.cov["evaluations"] = sum(len(S.ops) for S in allS)
             chk.cov["traces_validated_against_impl"] = len(sessions) - len(diverged)
@@ -1052,7 +1071,7 @@ def c09_session(live, rng, heal_at=None, origin=None, params=None, random_close=
     return S
 
 
-def c09_heal(S, rng, todo, want, random_close=False, heal_at=0):
+def c09_heal(S, rng, todo, want, random_close=False, heal_at=0, max_ops=25000):
     """the loss-free suffix of a C09 run (see c09_session); fills S.c09"""
     # ---- healing: from here on nothing is lost and the readers keep reading
     t_heal = S.now
@@ -1068,15 +1087,27 @@ def c09_heal(S, rng, todo, want, random_close=False, heal_at=0):
         if (S.now - t_heal) % M32 > c09_bound({"want": want, "mss_min": S.mss_min}):
             end = "bound-exceeded"
             break
-        if len(S.ops) - ops0 > 25000:
+        if len(S.ops) - ops0 > max_ops:
             end = "op-cap"
             break
         burst = 0
-        # (at most 100 deliveries before the applications and the clocks get their turn: two sockets that both miss
-        #  data answer every empty duplicate ACK with a duplicate ACK, which never ends on a zero-latency network)
+        storm = 0
+        # (at most 100 deliveries before the applications and the clocks get their turn, fewer when the sockets only
+        #  exchange empty duplicate ACKs: two sockets that both miss data answer every empty out-of-sequence ACK with
+        #  a duplicate ACK, which never ends by itself on a zero-latency network; the packets stay queued = delayed)
         while S.alive() and (S.net["l"] or S.net["r"]) and burst < 100:
+            n0 = len(S.ops)
             net_step(S, rng, lossy=False)
             burst += 1
+            w = S.ops[-1].split()
+            d = S.last.get(w[2]) if len(w) > 3 and len(S.ops) > n0 else None
+            if d and len(w[3]) == 48 and len(d["ev"]) == 1 and d["ev"][0].startswith("p:") and len(d["ev"][0]) == 50 \
+                    and d["_prev"] and d["_prev"]["una"] == d["una"] and d["_prev"]["rnxt"] == d["rnxt"]:
+                storm += 1
+                if storm >= 8:
+                    burst = 100
+            else:
+                storm = 0
         for s in ("l", "r"):
             d = S.recv(s, 70000)
             while d and d["ret"] > 0 and steps < max_steps:
